@@ -711,6 +711,101 @@ def check_block_state_cleared(run, rule):
     run.floor(rule, 10, "block members changed by buffering")
 
 
+def check_filled_flags(run, rule):
+    """R01.17: "filled" flags.  The functions that turn a generic record into block items build each sub-record in a local
+    object O next to a local `bool F = false` and attach / store O only `if (F)`.  So that no field the caller gave is lost:
+      * F is never lowered again (an assignment of the constant false after its declaration);
+      * every conditional statement list that stores a member of O also raises F (`F = true` in the same list) - the pairing
+        O -> F is read off the lists that do both, and only taken when O is paired with one flag only;
+      * every such flag that guards something is raised somewhere.
+    A record that has only the one field whose list forgets the flag would be dropped whole."""
+    facts = run.facts
+    n_pairs = 0
+    for fn in sorted(facts.functions.values(), key=lambda f_: (f_.get("file", ""), f_.get("line", 0))):
+        if fn.get("body") is None or not (fn.get("qn") or "").startswith("CDNS::CdnsBlock::add_"):
+            continue
+        flags = {}
+        for d in ir.walk(fn["body"]):
+            if d.get("k") == "Decl":
+                for v in d.get("vars", []):
+                    if (v.get("t") or "") == "bool" and v.get("init") is not None and const_value(v["init"]) in (0, False) and "id" in v:
+                        flags["l:%s#%s" % (v["n"], v["id"])] = v
+        if not flags:
+            continue
+
+        def flag_store(st):
+            u = unwrap(st)
+            if isinstance(u, dict) and u.get("k") == "Bin" and u.get("op") == "=":
+                lp = path(u.get("lhs"))
+                if lp and len(lp) == 1 and lp[0] in flags:
+                    return lp[0], const_value(u.get("rhs")), u
+            return None
+
+        def obj_store(st):
+            u = unwrap(st)
+            lhs = None
+            if isinstance(u, dict) and u.get("k") == "Bin" and u.get("op") == "=":
+                lhs = u.get("lhs")
+            elif isinstance(u, dict) and u.get("k") == "OpCall" and u.get("op") == "=" and len(u.get("args", [])) == 2:
+                lhs = u["args"][0]
+            lp = path(lhs) if lhs is not None else None
+            if lp and len(lp) >= 2 and lp[0].startswith("l:") and lp[0] not in flags:
+                return lp[0], ".".join(lp[1:]), u
+            return None
+        # consumers: flags tested by an `if`
+        tested = set()
+        for n in ir.walk(fn["body"]):
+            if n.get("k") == "If":
+                for x in ir.walk(n.get("cond")):
+                    if x.get("k") == "Ref" and path(x) and path(x)[0] in flags:
+                        tested.add(path(x)[0])
+        lists = []          # (If node, top-level statements of a branch)
+        for n in ir.walk(fn["body"]):
+            if n.get("k") == "If":
+                for br in ("then", "else"):
+                    if n.get(br) is not None:
+                        lists.append((n, ir.stmts(n[br])))
+        pair_count = {}
+        for n, sts in lists:
+            fl = set(f[0] for f in (flag_store(x) for x in sts) if f is not None and f[1] in (1, True))
+            obs = set(o[0] for o in (obj_store(x) for x in sts) if o is not None)
+            if len(fl) == 1:
+                for o in obs:
+                    pair_count.setdefault(o, {}).setdefault(list(fl)[0], 0)
+                    pair_count[o][list(fl)[0]] += 1
+        pairing = {o: list(d)[0] for o, d in pair_count.items() if len(d) == 1 and list(d.values())[0] >= 2 and list(d)[0] in tested}
+        raised = set()
+        for x in ir.walk(fn["body"]):
+            fs = flag_store(x) if isinstance(x, dict) and x.get("k") in ("Bin", "Paren", "ExprStmt", "Cast") else None
+            if fs is None:
+                continue
+            name = fs[0].split("#")[0][2:]
+            if fs[1] in (1, True):
+                raised.add(fs[0])
+            elif fs[1] in (0, False) and fs[0] in tested:
+                run.ob(rule, "%s:%s:never-lowered" % (short(fn["qn"]), name), False, fn, fs[2].get("l", 0),
+                       "`%s = false`: what was stored before this statement is forgotten - a record whose other fields are absent is dropped "
+                       "although the caller gave this one" % name)
+        for n, sts in lists:
+            fl = set(f[0] for f in (flag_store(x) for x in sts) if f is not None and f[1] in (1, True))
+            for x in sts:
+                o = obj_store(x)
+                if o is None or o[0] not in pairing:
+                    continue
+                F = pairing[o[0]]
+                n_pairs += 1
+                ok = F in fl
+                run.ob(rule, "%s:%s.%s:raises-%s" % (short(fn["qn"]), o[0].split("#")[0][2:], o[1], F.split("#")[0][2:]), ok, fn, o[2].get("l", 0),
+                       "stored together with `%s = true`" % F.split("#")[0][2:] if ok else
+                       "%s.%s is stored here but `%s` is not raised in this branch (it is in the %d other branches that store into %s): a record "
+                       "with only this field present is dropped" % (o[0].split("#")[0][2:], o[1], F.split("#")[0][2:], pair_count[o[0]][F], o[0].split("#")[0][2:]))
+        for F in sorted(set(pairing.values())):
+            ok = F in raised
+            run.ob(rule, "%s:%s:raised-somewhere" % (short(fn["qn"]), F.split("#")[0][2:]), ok, fn, fn["line"],
+                   "the flag is raised where its record is filled" if ok else "the flag is tested but never raised")
+    run.info["filled_flag_pairs"] = n_pairs
+
+
 def check(run):
     from . import C08 as _C08
     _C08.check_tables_append(run, "R01.13")      # an independent writer may repeat a table value; indices must keep resolving
@@ -726,6 +821,7 @@ def check(run):
     from . import C06 as _C06
     _C06.check_public_writes(run, rename={"R06.2": "R01.16", "R06.3": None})
     check_fresh_records(run, "R01.10")
+    check_filled_flags(run, "R01.17")
     check_block_state_cleared(run, "R01.11")
     # records are written under the parameter set the application selected: write_block() re-arms the (possibly empty) block
     from . import C12
